@@ -9,7 +9,8 @@ SHARDS = {"trees.treeoutput.parse_split_specification": 8}
 
 TRUSTED = ["str.split('_') abstracted to the uninterpreted list py_split(s,'_') (>= 1 piece, no piece contains '_')",
            "str.isdigit / int(str): uninterpreted; isdigit(s) and int(s) succeeding imply int(s) >= 0",
-           "ssum background lemmas (update inside / above the summed prefix), DESIGN 3.9"]
+           "ssum background lemmas (update inside / above the summed prefix) are used as quantified facts; they are "
+           "proved by explicit induction on the prefix length (LEMMAS ssum_update_above / ssum_update_inside)"]
 ASSUMPTIONS = ["int = mathematical integer; // by the constant 100 is floor division"]
 
 BASE = z3.Function("spec_base", StrS, IntS, IntArr)      # array of the sizes the specification asks for
@@ -136,3 +137,30 @@ def build(reg):
         result_type=TList(INT),
         loops={0: dict(inv=inv, types={"parts": TList(INT), "rest_index": TOpt(INT)})},
     ))
+
+
+def lemma_ssum_above(reg, repo):
+    """i >= k  ->  ssum(a[i := v], k) == ssum(a, k)      (induction on k)"""
+    f = ssum_fn()
+    a = z3.Const("sa", IntArr)
+    i, v, k = z3.Ints("si sv sk")
+    A = z3.Store(a, i, v)
+    return [("base", [k <= 0], f(A, k) == f(a, k)),
+            ("step", [k > 0, i >= k, f(A, k - 1) == f(a, k - 1)], f(A, k) == f(a, k))]
+
+
+def lemma_ssum_inside(reg, repo):
+    """0 <= i < k  ->  ssum(a[i := v], k) == ssum(a, k) - a[i] + v      (induction on k from i + 1, over the lemma
+    above at k = i)"""
+    f = ssum_fn()
+    a = z3.Const("sa", IntArr)
+    i, v, k = z3.Ints("si sv sk")
+    A = z3.Store(a, i, v)
+    return [("base", [0 <= i, k == i + 1, f(A, i) == f(a, i)], f(A, k) == f(a, k) - z3.Select(a, i) + v),
+            ("step", [0 <= i, k > i + 1, f(A, k - 1) == f(a, k - 1) - z3.Select(a, i) + v],
+             f(A, k) == f(a, k) - z3.Select(a, i) + v)]
+
+
+LEMMAS = {"ssum_update_above": lemma_ssum_above, "ssum_update_inside": lemma_ssum_inside}
+# the two lemmas are proved from the recursive definition of ssum alone (not from themselves)
+LEMMA_HINTS = {"ssum_update_above": {"no_background": True}, "ssum_update_inside": {"no_background": True}}
